@@ -256,6 +256,58 @@ REVIEWED = {
 }
 
 
+_callers = {}
+
+
+def normal_kind(P, f, v, k, bb):
+    """equivalent spellings of one panic share a kind: `match x { Err(_) => panic!(..) }` / `let Ok(v) = x else { panic!() }` is
+    `x.expect(..)`; `<[u8; N]>::try_from(s).expect(..)` / `s.try_into().unwrap()` is `buf.copy_from_slice(s)` (both abort exactly
+    when the slice is not N long)"""
+    t = f.blocks[bb].term
+    if k.startswith("call:panic:"):
+        # reached only through the failure edge of a Result / Option test?
+        for (e, fa) in v.own_facts:
+            if fa[0] == "succ" and not fa[2]:
+                oks_ = [e2 for (e2, f2) in v.own_facts if e2[0] == e[0] and f2[0] == "succ" and f2[2]]
+                reach_ok = set().union(*[f.reach(e2[1], stop=frozenset({e[0]})) - {e[0]} for e2 in oks_]) if oks_ else set()
+                if bb in f.reach(e[1]) - reach_ok and not sep(f, {e}, {bb}):
+                    ty = f.local_ty(0)
+                    src = peel_result(fa[1])
+                    is_opt = src[0] in ("some",) or (is_call(src) and (P.fns.get(src[1]) is not None and (P.fns[src[1]].j.get("output") or "").startswith("core::option")))
+                    return "call:Option::expect" if is_opt else "call:Result::expect"
+    if k[5:] in ("Result::expect", "Result::unwrap") and t["k"] == "call":
+        a = v.call_args(bb)
+        if a and is_call(a[0]) and a[0][1].rsplit("::", 1)[-1] in ("try_into", "try_from") and "array" in (a[0][1] + str(a[0][4] or "")).lower() or \
+                (a and is_call(a[0]) and a[0][1].rsplit("::", 1)[-1] in ("try_into", "try_from") and "; " in f.local_ty(t["dest"]["l"])):
+            return "call:slice::copy_from_slice"
+    if k[5:] in ("Option::unwrap", "Result::unwrap"):
+        return k.replace("unwrap", "expect")
+    return k
+
+
+def attributed(P, f, depth=0):
+    """panic sites of a private helper with a single caller are reviewed as part of that caller (extracting a block of code
+    into a helper does not create a new review obligation): the key of the function the sites are attributed to"""
+    if id(P) not in _callers:
+        idx = {}
+        for g in P.fns.values():
+            if not g.has_body:
+                continue
+            for (bb, t, ci) in g.calls():
+                if ci:
+                    for k in (ci.get("resolved"), ci.get("path")):
+                        if k in P.fns and k != g.key:
+                            idx.setdefault(k, set()).add(g.key)
+        _callers[id(P)] = idx
+    cs = _callers[id(P)].get(f.key, set())
+    if depth < 3 and f.kind != "Closure" and f.j.get("vis", "") != "Public" and not f.j.get("impl_trait") and not f.j.get("reachable") \
+            and len(cs) == 1 and f.crate.startswith("frost"):
+        g = P.fns[next(iter(cs))]
+        if g.kind != "Closure":
+            return attributed(P, g, depth + 1)
+    return f.key
+
+
 def run(ctx):
     ctx.decided = ("every panic site in workspace library code (MIR Assert terminators for bounds/overflow/div/rem/neg "
                    "in a build with overflow checks and debug assertions on, calls into core::panicking and into the "
@@ -285,6 +337,16 @@ def run(ctx):
                 auto += 1
                 ctx.ok("PANIC-auto", f.key, "%s@argument-independent" % k, {"operand": fmt(a[0])[:120]})
                 continue
+            if k[5:] in ("Option::expect", "Option::unwrap", "Result::expect", "Result::unwrap", "CtOption::unwrap", "CtOption::expect") and a:
+                # x.unwrap() behind `if x.is_some()` / `if let Some(_) = x`: every path to the site crosses the success edge
+                X = a[0]
+                okm = lambda fa: ("pass" if (fa[2] if fa[0] == "succ" else fa[4]) else "fail") \
+                    if ((fa[0] == "succ" and fa[1] == X) or (fa[0] == "cond" and fa[1] == "success" and fa[2] == X)) else None
+                edges = {e for (e, fa) in v.facts if okm(fa) == "pass"}
+                if edges and not sep(f, edges, {bb}):
+                    auto += 1
+                    ctx.ok("PANIC-auto", f.key, "%s@behind-its-own-success-test" % k)
+                    continue
             if k in ("call:Vec::insert",) and len(a) > 1 and const(0)(a[1]):
                 auto += 1
                 ctx.ok("PANIC-auto", f.key, "%s@index-0" % k)
@@ -307,10 +369,19 @@ def run(ctx):
                 auto += 1
                 ctx.ok("PANIC-auto", f.key, "%s@serde-field-counter" % k)
                 continue
-        groups.setdefault((f.key, k), []).append(bb)
+        groups.setdefault((attributed(P, f), normal_kind(P, f, v, k, bb)), []).append((f.key, bb))
     used = set()
-    for (fk, k), blocks in sorted(groups.items()):
+    for (fk, k), sites in sorted(groups.items()):
         f = P.fns[fk]
+        own = [bb for (k_, bb) in sites if k_ == fk]
+        moved = [(k_, bb) for (k_, bb) in sites if k_ != fk]
+        blocks = own or [bb for (_, bb) in moved]
+        if moved and not own:
+            f = P.fns[moved[0][0]]
+        if moved:
+            ctx.note("PANIC", fk, "%d site(s) of kind %s sit in private single-caller helper(s) %s and are reviewed with their caller"
+                     % (len(moved), k, sorted({short(k_) for k_, _ in moved})))
+        blocks = [bb for (_, bb) in sites] if not moved else blocks
         row = None
         for (suffix, kind), r in REVIEWED.items():
             if kind == k and fk.endswith(suffix):
@@ -325,7 +396,7 @@ def run(ctx):
                           (k, short(fk), ", ".join(loc_of(f, b) for b in blocks)), loc_of(f, blocks[0]))
             continue
         cnt, why, ob = row
-        if len(blocks) > cnt:
+        if len(sites) > cnt:
             ctx.violation("PANIC", where, k + ":multiplicity",
                           "%d site(s) of kind %s in %s, %d reviewed (%s): a new site appeared; re-review"
                           % (len(blocks), k, short(fk), cnt, why), loc_of(f, blocks[0]))
